@@ -126,9 +126,22 @@ def run(ctx):
     f = ctx.s("fs")
     tree = gen_tree(t, 1 + t.draw(5), [5 + t.draw(36)])
     text, flags = layout(render(tree), t)
+    big = ctx.s("cfg").draw(6000 if ctx.tier == "quick" else 2500)
+    if big < 40:
+        # sizes around typical buffer / block boundaries (8 KiB, 64 KiB, 128 KiB, 1 MiB): the same form repeated inside
+        # one top-level list, with long comments between the copies
+        # comfortably past the boundary (CRLF translation and comment stripping shrink what the reader sees), and past
+        # several multiples of the small ones
+        base = 8192 if big >= 12 else 65536 if big >= 5 else 131072 if big >= 2 else 1 << 20
+        target = base * (1 + t.draw(3) if base < (1 << 20) else 1) + base // 16 + t.draw(max(3000, base // 10))
+        unit = text.strip() + "\n; filler comment with (parens) and words that must stay comment text " + "x" * t.draw(90) + "\n"
+        reps = target // max(1, len(unit)) + 2
+        text = "(\n" + unit * reps + ")\n"
+        flags.add(f"big-{target >> 10}KiB")
+        ctx.probes["big_input"] += 1
     data = text.encode("utf-8")
     want = sexpr.read_one(text)  # the generator only makes well-formed complete texts
-    assert want == lower_tree(tree)
+    assert big < 40 or want == lower_tree(tree)
     # ---- the writer
     plan = ["ack", "ack", "error", "crash", "append-form", "append-paren", "drop-paren", "crash"][f.draw(8)]
     path = ctx.rundir / "in.pddl"
